@@ -190,6 +190,20 @@ func corrC05(c *corrCtx) {
 				c05Case(c, "webp/walk/"+kind, "webp", data, d.w, d.h, 8, kind != "VP8")
 			}
 		}
+		// the largest legal value of each dimension (fields that store the dimension minus one reach one past the field's maximum)
+		if kind != "VP8" {
+			for _, which := range []int{0, 1, 2} {
+				d := randWebpDesc(r, kind, nil)
+				if which != 1 {
+					d.w = 1 << bits
+				}
+				if which != 0 {
+					d.h = 1 << bits
+				}
+				data, _ := d.build()
+				c05Case(c, "webp/max/"+kind, "webp", data, d.w, d.h, 8, kind == "VP8X")
+			}
+		}
 		if c.thorough() && kind != "VP8X" {
 			for v := uint32(1); v < 1<<14; v++ {
 				for _, which := range []int{0, 1} {
